@@ -71,7 +71,7 @@ theorem findLoop_pok (remove : Bool) (height : Int) :
             · simp at h1; rw [h1]; exact hp.1
         split at h
         · obtain ⟨rfl, rfl⟩ := Prod.mk.inj h
-          exact ⟨⟨hwok, hws⟩, fun lb h => by cases h⟩
+          exact ⟨⟨hwok, fun x hx => by simp at hx⟩, fun lb h => by cases h⟩
         · rename_i ws' hr'
           obtain ⟨rfl, rfl⟩ := Prod.mk.inj h
           refine ⟨⟨hwok, fun x hx => hws x (removeWitnesses_mem hr' x hx)⟩, fun lb' h' => ?_⟩
